@@ -39,7 +39,7 @@ pub fn mw(seed: u64) -> Program {
         main.push(Op::AddSub { store: 0, sub: subs.len() - 1, reg: regs });
         regs += 1;
     }
-    let nact = g.rng.range(1, 4) as usize;
+    let nact = g.rng.range(1, 4 * g.scale) as usize;
     let nprod = g.rng.range(1, 2) as usize;
     let mut threads: Vec<Vec<Op>> = vec![vec![]];
     for _ in 0..nprod {
@@ -132,7 +132,7 @@ pub fn eff(seed: u64) -> Program {
     let mut threads: Vec<Vec<Op>> = vec![vec![]];
     let mut depth_budget = 6;
     for _ in 0..nprod {
-        let n = g.rng.range(1, 4) as usize;
+        let n = g.rng.range(1, 4 * g.scale) as usize;
         let mut ops = vec![];
         for _ in 0..n {
             if g.rng.chance(15) {
